@@ -79,3 +79,14 @@ def gen_cases(rng, tier, h):
 def nontrivial(case):
     muts = sum(1 for l in case if l.split()[0] in ("set", "idx", "at_set", "erase", "clear", "pset", "pget", "prem", "preset"))
     return muts >= 4 and any(l.split()[0] in ("erase", "prem", "pget") for l in case)
+
+MANIFEST = dict(
+    text=("Lean 4 theorems over an executable model of FlatMap and ParameterizedObject: key uniqueness for every history, refinement "
+          "to an insertion-ordered reference map (lookup function + key order) for every history, at() throws iff absent, erase keeps "
+          "order, re-insertion appends, type-mismatched reads return the default and touch nothing, query flag characterised for every "
+          "history. The model is tied to the code by running the same random op histories through the real classes (4 key/value "
+          "instantiations, 6 parameter types, ASan/UBSan) and the compiled model and diffing every observation."),
+    note=("Trusted: Lean kernel; axioms propext/Classical.choice/Quot.sound; the hand-written model is tied to the code only by the "
+          "correspondence harness (generators + canonicalisation) and g++/sanitizer runtimes; std::vector/find_if/stable_partition/"
+          "shared_ptr and Any::is/get are assumed to meet their specifications."),
+    technique="Lean 4 proof (induction over operation histories, refinement) + differential correspondence check model vs real code")
